@@ -290,7 +290,7 @@ class C11(World):
             if swarm["wrappers"]:
                 cand += [("wload", 1.2 * swarm["wrappers"]), ("wrun", 0.3 * swarm["wrappers"])]
                 if n_wr:
-                    cand += [("wtarget", 1.5 * swarm["wrappers"]), ("wexport", 0.7 * swarm["wrappers"])]
+                    cand += [("wtarget", 1.5 * swarm["wrappers"]), ("wexport", 0.7 * swarm["wrappers"]), ("wpoke", 0.5 * swarm["wrappers"])]
             op = ops.choices([k for k, _ in cand], [w for _, w in cand])[0]
             p = args.choice(owned[c])
             is_hp = probs[p]["src"] == "invalid:hp_targeting"
@@ -309,7 +309,7 @@ class C11(World):
                 x = args.random()
                 abort = round(args.random() if x < 0.5 else (0.9 + 0.1 * args.random() if x < 0.8 else 0.1 * args.random()), 4)
             if op == "svc":
-                st = dict(op="svc", p=p, form=args.choices(FORMS, swarm["w_forms"])[0], name=args.choice(names), abort=abort)
+                st = dict(op="svc", p=p, form=args.choices(FORMS, swarm["w_forms"])[0], name=args.choice(names), abort=abort, full=args.random() < 0.15)
             elif op == "clock":
                 st = dict(op="clock", dt=args.choice([0, 0, 1, 59, 3600, 86400, -1, -3600]))
             elif op == "mutate_result":
@@ -325,6 +325,8 @@ class C11(World):
                 n_wr += 1
             elif op == "wrun":
                 st = dict(op="wrun", p=p, stem=args.choice(["case", "auto", f"prob{p}"]), export=args.random() < 0.5)
+            elif op == "wpoke":
+                st = dict(op="wpoke", w=args.randrange(64))
             elif op == "wtarget":
                 st = dict(op="wtarget", w=args.randrange(64), abort=abort)
             else:
@@ -400,6 +402,7 @@ class C11(World):
         shared_dict: dict[tuple, dict] = {}
         shared_model: dict[tuple, object] = {}
         shared_hybrid: dict[tuple, object] = {}
+        full_zones: list = []  # [zone tree, digest] handed out by is_return_full_results=True calls
         used_shared = set()
         wrappers: list[dict] = []  # dict(obj, p, fc, name, src, snap)
         held: list[tuple] = []  # (result object, text)
@@ -457,6 +460,11 @@ class C11(World):
             return "ok:" + prng.digest(text)
 
         def check_held(step, skip_last=True):
+            for fz in full_zones[-6:]:
+                tick("earlier_results")
+                if zone_digest(fz[0]) != fz[1]:
+                    V("earlier_results", "returned_zone_tree_changed", step, "an analysed zone tree handed out by is_return_full_results=True changed after it was returned")
+                    fz[1] = zone_digest(fz[0])
             for rec in wrappers:
                 zd = rec.get("zone_digest")
                 if zd is not None:
@@ -648,7 +656,15 @@ class C11(World):
                     key = (p, fc, name)
                     snap = snapshot(data)
                     fpb = fp()
-                    call = lambda: pinch_analysis_service(data, project_name=name)
+                    if st.get("full"):
+                        # the documented second return shape: (TargetOutput, analysed zone tree)
+                        def call():
+                            out_, zone_ = pinch_analysis_service(data, project_name=name, is_return_full_results=True)
+                            full_zones.append([zone_, zone_digest(zone_)])
+                            return out_
+                        probe("full_results_requested")
+                    else:
+                        call = lambda: pinch_analysis_service(data, project_name=name)
                     tr = None
                     if st.get("abort") is not None:
                         a = ask(p, fc, name, need_lines=True)
@@ -699,6 +715,29 @@ class C11(World):
                         outcome = "ok"
                     except Exception as e:
                         outcome = "raise:" + type(e).__name__
+                elif op == "wpoke":
+                    if not wrappers:
+                        outcome = "skip"
+                    else:
+                        rec = wrappers[st["w"] % len(wrappers)]
+                        w = rec["obj"]
+                        fpb = fp()
+                        try:  # the read-only surface of the wrapper
+                            repr(w)
+                            w.problem_data
+                            w.problem_filepath
+                            w.results
+                            w.master_zone
+                            w.to_problem_json()
+                            outcome = "ok"
+                        except Exception as e:
+                            outcome = "raise:" + type(e).__name__
+                        d = fp_diff(fpb, fp())
+                        tick("module_state")
+                        if d:
+                            V("module_state", d[0], step, f"module state differs after reading the wrapper's properties: {d[:3]}")
+                        check_held(step, skip_last=False)
+                        probe("wrapper_read_only_surface")
                 elif op in ("wtarget", "wexport"):
                     if not wrappers:
                         outcome = "skip"
